@@ -171,9 +171,33 @@ fn check_list(c: &ListCase, info: &mut Info) -> Result<(), String> {
     // prepared elements are created once and reused below
     let pp: Vec<crt::G1Prepared> = cr("prepare", || pc.iter().map(|p| p.prepare()).collect())?;
     let qp: Vec<crt::G2Prepared> = cr("prepare", || qc.iter().map(|q| q.prepare()).collect())?;
+    // the pair list is handed over as every kind of iterable the signature admits (exact-size slice iterator, the
+    // Vec by reference, iterators whose size_hint has lower bound 0 or no upper bound, a chain, a hand-written one)
+    struct Plain<'a, T>(&'a [T], usize);
+    impl<'a, T> Iterator for Plain<'a, T> {
+        type Item = &'a T;
+        fn next(&mut self) -> Option<&'a T> {
+            let r = self.0.get(self.1);
+            self.1 += 1;
+            r
+        }
+    }
+    let iter_kind = std::cell::Cell::new(c.items.len() + c.replays.len());
     let eval = |order: &[usize]| -> Result<Fq12, String> {
         let refs: Vec<(&crt::G1Prepared, &crt::G2Prepared)> = order.iter().map(|i| (&pp[*i], &qp[*i])).collect();
-        let f = cr("miller_loop", || Bls12::miller_loop(refs.iter()))?;
+        let k = iter_kind.get();
+        iter_kind.set(k + 1);
+        let f = match k % 6 {
+            0 => cr("miller_loop(slice.iter())", || Bls12::miller_loop(refs.iter()))?,
+            1 => cr("miller_loop(&Vec)", || Bls12::miller_loop(&refs))?,
+            2 => cr("miller_loop(iter.filter)", || Bls12::miller_loop(refs.iter().filter(|_| true)))?,
+            3 => cr("miller_loop(hand-written iterator)", || Bls12::miller_loop(Plain(&refs, 0)))?,
+            4 => {
+                let mid = refs.len() / 2;
+                cr("miller_loop(chain)", || Bls12::miller_loop(refs[..mid].iter().chain(refs[mid..].iter())))?
+            }
+            _ => cr("miller_loop(flat_map)", || Bls12::miller_loop(refs.chunks(3).flat_map(|ch| ch.iter())))?,
+        };
         let e = cr("final_exponentiation", || Bls12::final_exponentiation(&f))?.ok_or("final_exponentiation of a Miller-loop output failed")?;
         Ok(fq12_m(&e))
     };
@@ -279,7 +303,7 @@ pub fn def() -> PropDef {
         needs_pairing: true,
         subs: vec![
             Box::new(crate::engine::EnumSub { name: "long-history", rule: super::longhist::RULE, run: run_long_history, replay: super::longhist::replay, exhaustive: false }),
-            Box::new(crate::engine::EnumSub { name: "two-input-bursts", rule: super::longhist::BURST_RULE, run: run_two_input_bursts, replay: super::longhist::replay_burst, exhaustive: false }),Box::new(Sub { name: "pair-lists", rule: "final_exponentiation(miller_loop(list)) == published^(sum a_i b_i) == product of singles == helpers; prepared reuse, prepared elements copied into occupied slots with clone_from", quick: 2_800, thorough: 25_000, strategy: || boxed(list_strategy()), check: check_list })],
+            Box::new(crate::engine::EnumSub { name: "two-input-bursts", rule: super::longhist::BURST_RULE, run: run_two_input_bursts, replay: super::longhist::replay_burst, exhaustive: false }),Box::new(Sub { name: "pair-lists", rule: "final_exponentiation(miller_loop(list)) == published^(sum a_i b_i) == product of singles == helpers; the pair list passed as six kinds of iterable (exact and inexact size hints); prepared reuse, prepared elements copied into occupied slots with clone_from", quick: 2_800, thorough: 25_000, strategy: || boxed(list_strategy()), check: check_list })],
         assumptions: {
             let mut v = COMMON_ASSUMPTIONS.to_vec();
             v.push("pairing_multi_product is only called with slices of equal length, as the property states");
